@@ -6,7 +6,7 @@ from __future__ import annotations
 
 from collections import defaultdict
 
-from .materialize import compute_value, default_value, exc_matches, kdigest, vrepr
+from .materialize import compute_value, default_value, exc_matches, kdigest, plan_outcome, vrepr
 
 VAL = 'val'
 ERR = 'err'
@@ -132,6 +132,8 @@ class Reference:
         self.eval_stack = []
         self.last_kwargs = {}
         self._paths = {}
+        self._desc_memo = {}
+        self._forcing = set()
         self.epoch = 0
 
     # -- evaluation --------------------------------------------------------------------------
@@ -146,7 +148,35 @@ class Reference:
     def eval_in(self, n):
         if n in self.rec:
             return self.eval_rec(n)
+        # a reader outside a recurrent subgraph (and not downstream of its destination) must still only see the
+        # FINAL value of an inner node (C03): the subgraph is brought to its end first
+        requester = self.eval_stack[-1] if self.eval_stack else None
+        for dest, (start, _mx) in self.rec.items():
+            P = self._path(start, dest)
+            if n in P and n != dest and requester is not None and requester not in P \
+                    and requester not in self._desc(dest) and dest not in self._forcing:
+                self._forcing.add(dest)
+                try:
+                    self.eval_rec(dest)
+                finally:
+                    self._forcing.discard(dest)
         return self.demand(n)
+
+    def _desc(self, n):
+        if n not in self._desc_memo:
+            succ = defaultdict(set)
+            for a, b in declared_edges(self.spec):
+                succ[a].add(b)
+            seen = set()
+            todo = [n]
+            while todo:
+                y = todo.pop()
+                for z in succ[y]:
+                    if z not in seen:
+                        seen.add(z)
+                        todo.append(z)
+            self._desc_memo[n] = seen
+        return self._desc_memo[n]
 
     def demand(self, n) -> Res:
         self.requests.setdefault(n, set()).add(tuple(self.ctx_stack))
@@ -229,7 +259,7 @@ class Reference:
             key = (n, kd)
             idx = self.inv.get(key, 0)
             self.inv[key] = idx + 1
-            outcome = plan[idx] if idx < len(plan) else 'ok'
+            outcome = plan_outcome(plan, idx, kd)
             self.calls.append((n, kd, idx, outcome))
             ex_rec['idxs'].append(idx)
             ex_rec['outcomes'].append(outcome)
